@@ -114,6 +114,7 @@ Proof.
     eapply (shape_upd s _ (s_ch st)); [exact C | reflexivity | reflexivity|]. intros _ Hk. apply chok_clone; [exact Hk|].
     apply (no_cursor s _ sid2 I Hlt Hn1). now apply no_a2_none.
   - (* set capacity *) eapply (shape_upd s _ (s_ch st)); [exact C | reflexivity | reflexivity|]. intros _ Hk. now apply chok_grow.
+  - (* async drop starts: as drop *) apply (shape_bury s sid st) in C. exact C.
   - now apply shape_bury.
   - (* async drop, subs, done *) pose proof (rm_apply_frame _ _ _ _ H3) as (_ & _ & Eadd & _).
     assert (C1 : shape_ok s1).
